@@ -233,11 +233,13 @@ def cfgTwoSetters : Config := { nW := 1, scripts := [[.set], [.set]] }
 def cfgSetReset : Config := { nW := 1, scripts := [[.set, .reset], [.ready]] }
 /-- the event starts signalled; a reset races with the waiter; a final set() releases it -/
 def cfgStartSet : Config := { nW := 1, scripts := [[.reset, .set]], startSet := true }
-/-- three waiters, one set() (used for the parametric theorems' sanity check only) -/
+/-- reset() while a waiter may be queued (a no-op then), followed by the set() that releases it -/
+def cfgResetNoop : Config := { nW := 1, scripts := [[.reset, .set]] }
+/-- three waiters, one set() (thorough tier only; covered by the parametric theorems) -/
 def cfgThreeWaiters : Config := { nW := 3, scripts := [[.set]] }
 
 def configs : List (String × Config) :=
   [("v1_two_waiters", cfgTwoWaiters), ("v1_two_setters", cfgTwoSetters), ("v1_set_reset", cfgSetReset),
-   ("v1_start_set", cfgStartSet), ("v1_three_waiters", cfgThreeWaiters)]
+   ("v1_start_set", cfgStartSet), ("v1_reset_noop", cfgResetNoop), ("v1_three_waiters", cfgThreeWaiters)]
 
 end Unifex.Proto.EventV1
